@@ -8,21 +8,21 @@ Section WithMode.
 Variable mw : bool.
 Local Notation print_items := (Token.print_items mw).
 
-Lemma print_comma_unfold fi P l r :
-  print_items fi P (EBin BComma l r) =
-  paren (P >=? LComma) (print_items (fi && negb (P >=? LComma)) 0 l ++ [IOp BComma] ++ print_items (fi && negb (P >=? LComma)) 0 r).
+Lemma print_comma_unfold fi ss P l r :
+  print_items fi ss P (EBin BComma l r) =
+  paren (P >=? LComma) (print_items (fi && negb (P >=? LComma)) (ss && negb (P >=? LComma)) 0 l ++ [IOp BComma] ++ print_items (fi && negb (P >=? LComma)) false 0 r).
 Proof. cbn [Token.print_items]. cbv zeta. change (op_eqb BComma BIn && fi) with false. rewrite orb_false_r. reflexivity. Qed.
 
-Lemma print0_comma_app fi a : forall b,
-  print_items fi 0 (comma_app a b) = print_items fi 0 a ++ [IOp BComma] ++ print_items fi 0 b.
+Lemma print0_comma_app fi ss a : forall b,
+  print_items fi ss 0 (comma_app a b) = print_items fi ss 0 a ++ [IOp BComma] ++ print_items fi false 0 b.
 Proof.
-  assert (Hpl : forall b, not_comma b -> print_items fi 0 (EBin BComma a b) = print_items fi 0 a ++ [IOp BComma] ++ print_items fi 0 b).
-  { intros b _. rewrite print_comma_unfold. change (0 >=? LComma) with false. simpl negb. rewrite andb_true_r. reflexivity. }
+  assert (Hpl : forall b, not_comma b -> print_items fi ss 0 (EBin BComma a b) = print_items fi ss 0 a ++ [IOp BComma] ++ print_items fi false 0 b).
+  { intros b _. rewrite print_comma_unfold. change (0 >=? LComma) with false. simpl negb. rewrite !andb_true_r. reflexivity. }
   induction b as [s|s|b0 f|t IHt s|u v IHv|o b1 IH1 b2 IH2|c0 IHc0 y0 IHy0 n0 IHn0|t0 IHt0 i0 IHi0|f0 IHf0 a0 IHa0|f0 IHf0 a0 IHa0| |x0 IHx0 r0 IHr0];
     try (apply Hpl; exact I).
   destruct o; try (apply Hpl; exact I).
   change (comma_app a (EBin BComma b1 b2)) with (EBin BComma (comma_app a b1) b2).
-  rewrite !print_comma_unfold. change (0 >=? LComma) with false. unfold paren. simpl negb. rewrite andb_true_r.
+  rewrite !print_comma_unfold. change (0 >=? LComma) with false. unfold paren. simpl negb. rewrite !andb_true_r.
   rewrite IH1. rewrite <- !app_assoc. reflexivity.
 Qed.
 
@@ -34,21 +34,27 @@ Proof.
   destruct (norm r) as [| | | | |o2 ? ?| | | | | |]; try reflexivity. destruct o2; reflexivity.
 Qed.
 
-Lemma print_norm : forall e fi P, print_items fi P (norm e) = print_items fi P e.
+Lemma is_let_norm e : is_let (norm e) = is_let e.
 Proof.
-  induction e as [s|s|b f|t IHt s|u v IHv|o l IHl r IHr|c0 IHc0 y0 IHy0 n0 IHn0|t0 IHt0 i0 IHi0|f0 IHf0 a0 IHa0|f0 IHf0 a0 IHa0| |x0 IHx0 r0 IHr0]; intros fi P; try reflexivity.
+  destruct e as [s|s|b f|t s|u v|o l r|c0 y0 n0|t0 i0|f0 a0|f0 a0| |x0 r0]; try reflexivity. simpl.
+  destruct (op_eqb o BComma); [|reflexivity]. destruct (norm r) as [| | | | |o2 ? ?| | | | | |]; try reflexivity. destruct o2; reflexivity.
+Qed.
+
+Lemma print_norm : forall e fi ss P, print_items fi ss P (norm e) = print_items fi ss P e.
+Proof.
+  induction e as [s|s|b f|t IHt s|u v IHv|o l IHl r IHr|c0 IHc0 y0 IHy0 n0 IHn0|t0 IHt0 i0 IHi0|f0 IHf0 a0 IHa0|f0 IHf0 a0 IHa0| |x0 IHx0 r0 IHr0]; intros fi ss P; try reflexivity.
   - simpl. rewrite IHt. reflexivity.
   - simpl. rewrite !IHv. reflexivity.
   - simpl norm. destruct (op_eqb o BComma) eqn:E.
     + assert (o = BComma) by (destruct o; try discriminate; reflexivity). subst o.
-      rewrite print_comma_unfold. set (fb := fi && negb (P >=? LComma)).
-      assert (H0 : print_items fb 0 (comma_app (norm l) (norm r)) = print_items fb 0 l ++ [IOp BComma] ++ print_items fb 0 r)
+      rewrite print_comma_unfold. set (fb := fi && negb (P >=? LComma)). set (sb := ss && negb (P >=? LComma)).
+      assert (H0 : print_items fb sb 0 (comma_app (norm l) (norm r)) = print_items fb sb 0 l ++ [IOp BComma] ++ print_items fb false 0 r)
         by (rewrite print0_comma_app, IHl, IHr; reflexivity).
       (* the wrapping decision only looks at the operator, which is a comma on both sides *)
       assert (Hc : exists x y, comma_app (norm l) (norm r) = EBin BComma x y).
       { destruct (norm r) as [| | | | |o2 ? ?| | | | | |]; simpl; eauto. destruct o2; simpl; eauto. }
       destruct Hc as (x & y & Hxy). rewrite Hxy in *. rewrite print_comma_unfold in *.
-      change (0 >=? LComma) with false in H0. unfold paren in H0 at 1. simpl negb in H0. rewrite andb_true_r in H0. fold fb. rewrite H0. reflexivity.
+      change (0 >=? LComma) with false in H0. unfold paren in H0 at 1. simpl negb in H0. rewrite !andb_true_r in H0. fold fb. fold sb. rewrite H0. reflexivity.
     + cbn [print_items]. cbv zeta. rewrite !IHl, !IHr, !shape_norm_or_and.
       assert (Hs : match norm l with EUn u _ => negb (op_eqb u UPreDec || op_eqb u UPreInc || op_eqb u UPostDec || op_eqb u UPostInc) | ENum _ => true | _ => false end
                  = match l with EUn u _ => negb (op_eqb u UPreDec || op_eqb u UPreInc || op_eqb u UPostDec || op_eqb u UPostInc) | ENum _ => true | _ => false end).
@@ -56,7 +62,7 @@ Proof.
         destruct (norm b2) as [| | | | |o3 ? ?| | | | | |]; try reflexivity. destruct o3; reflexivity. }
       rewrite Hs. reflexivity.
   - cbn [norm Token.print_items]. rewrite !IHc0, !IHy0, !IHn0. reflexivity.
-  - cbn [norm Token.print_items]. rewrite !IHt0, !IHi0. reflexivity.
+  - cbn [norm Token.print_items]. rewrite !IHt0, !IHi0, is_let_norm. reflexivity.
   - cbn [norm Token.print_items]. rewrite !IHf0, !IHa0. reflexivity.
   - cbn [norm Token.print_items]. rewrite !IHf0, !IHa0.
     replace (has_args (norm a0)) with (has_args a0) by (destruct a0; try reflexivity; simpl; destruct (op_eqb o BComma); [|reflexivity]; destruct (norm a0_2) as [| | | | |o9 ? ?| | | | | |]; try reflexivity; destruct o9; reflexivity).
@@ -131,10 +137,10 @@ Lemma norm_idem e : norm (norm e) = norm e.
 Proof. apply norm_cnf_id. apply cnf_norm. Qed.
 
 (* tree-level round trip over tokens, every well-formed tree *)
-Theorem parse_print_items_all fi e :
-  wf e -> exists n, forall m, (n <= m)%nat -> parse_fuel m fi (toks (print_items fi LLowest e)) = Some (norm e).
+Theorem parse_print_items_all fi ss e :
+  wf e -> exists n, forall m, (n <= m)%nat -> parse_fuel m fi (toks (print_items fi ss LLowest e)) = Some (norm e).
 Proof.
-  intro Hwf. destruct (parse_print_items_cnf mw fi (norm e) (wf_norm e Hwf) (cnf_norm e)) as [n Hn].
+  intro Hwf. destruct (parse_print_items_cnf mw fi ss (norm e) (wf_norm e Hwf) (cnf_norm e)) as [n Hn].
   exists n. intros m Hm. specialize (Hn m Hm). rewrite print_norm, norm_idem in Hn. exact Hn.
 Qed.
 
